@@ -1646,54 +1646,41 @@ impl<'a, 'e> PatternTranslator<'a, 'e> {
                 }
             }
 
-            // Gather the inner patterns so we can prepend them to equations
+            // Gather the inner patterns so we can prepend them to equations.
+            // Every equation must contribute exactly one pattern per field of the merged
+            // `core_pattern`, in the order of `core_pattern`: an equation may name the fields in
+            // another order or leave some of them out.
             let temp = first_iter()
                 .map(|pattern| match *unwrap_as(&pattern.value) {
-                    ast::Pattern::Record {
-                        ref typ,
-                        ref fields,
-                        ..
-                    } => {
-                        let mut record_type = None;
-                        // Core fields appear in the same order as the normal pattern so we can
-                        // get the types from it cheaply
+                    ast::Pattern::Record { ref fields, .. } => {
                         let core_fields = match &core_pattern {
                             Pattern::Record { fields, .. } => fields,
                             _ => unreachable!(),
                         };
-                        ast::pattern_values(fields)
-                            .zip(core_fields)
-                            .map(|((name, value), core_field)| {
-                                value.as_ref().map(RefOwned::Ref).unwrap_or_else(|| {
-                                    let typ = if name.value == core_field.0.name {
-                                        core_field.0.typ.clone()
-                                    } else {
-                                        // If the field has been renamed we need to go the slo path
-                                        // and do a lookup but this should be rare
-                                        if record_type.is_none() {
-                                            record_type = Some(remove_aliases_cow(
-                                                &self.0.env,
-                                                &mut NullInterner,
-                                                typ,
-                                            ));
-                                        }
-                                        record_type
-                                            .as_ref()
-                                            .unwrap()
-                                            .row_iter()
-                                            .find(|f| f.name.name_eq(&name.value))
-                                            .map(|f| f.typ.clone())
-                                            .unwrap_or_else(Type::hole)
-                                    };
-
-                                    RefOwned::Owned(spanned(
+                        core_fields
+                            .iter()
+                            .map(|core_field| {
+                                let field = ast::pattern_values(fields)
+                                    .find(|(name, _)| name.value.name_eq(&core_field.0.name));
+                                match field {
+                                    Some((_, Some(value))) => RefOwned::Ref(value),
+                                    // `{ x }` binds the field to a variable of the same name
+                                    Some((name, None)) => RefOwned::Owned(spanned(
                                         Span::default(),
                                         ast::Pattern::Ident(TypedIdent {
                                             name: name.value.clone(),
-                                            typ,
+                                            typ: core_field.0.typ.clone(),
                                         }),
-                                    ))
-                                })
+                                    )),
+                                    // The field is not mentioned by this equation
+                                    None => RefOwned::Owned(spanned(
+                                        Span::default(),
+                                        ast::Pattern::Ident(TypedIdent {
+                                            name: Symbol::from("_"),
+                                            typ: core_field.0.typ.clone(),
+                                        }),
+                                    )),
+                                }
                             })
                             .collect::<Vec<_>>()
                     }
@@ -2127,7 +2114,11 @@ impl<'a, 'e> PatternTranslator<'a, 'e> {
             field: &Symbol,
             pattern: Option<&SpannedPattern<'_, Symbol>>,
         ) -> bool {
-            match record_fields.iter().find(|id| id.0.name == *field).cloned() {
+            match record_fields
+                .iter()
+                .find(|id| id.0.name.name_eq(field))
+                .cloned()
+            {
                 Some(earlier_var) => {
                     let duplicate = match pattern {
                         Some(ref pattern) => get_ident(&pattern.value).map(|id| id.name),
